@@ -39,9 +39,16 @@ Methods == <<
   [cls |-> "A", name |-> "valsp",  ret |-> "vecnum", kind |-> "float", declared |-> TRUE, mode |-> "collptr", deref |-> 0],
   [cls |-> "A", name |-> "tref",   ret |-> "obj",    kind |-> "R1",  declared |-> TRUE, mode |-> "byvalue",  deref |-> 0],
   [cls |-> "A", name |-> "trefref", ret |-> "obj",   kind |-> "R2",  declared |-> TRUE, mode |-> "byvalue",  deref |-> 0],
+  \* total indirection 3: a POINTER to a two-level smart reference, a DOUBLE pointer to a one-level one
+  [cls |-> "A", name |-> "trefrefp", ret |-> "obj",  kind |-> "R2",  declared |-> TRUE, mode |-> "std",      deref |-> 0],
+  [cls |-> "A", name |-> "trefpp", ret |-> "obj",    kind |-> "R1",  declared |-> TRUE, mode |-> "ptr2",     deref |-> 0],
   [cls |-> "A", name |-> "code",   ret |-> "num",    kind |-> "int", declared |-> TRUE, mode |-> "treetype", deref |-> 0],
   [cls |-> "A", name |-> "color",  ret |-> "num",    kind |-> "int", declared |-> TRUE, mode |-> "enum",     deref |-> 0],
   [cls |-> "A", name |-> "colorIs", ret |-> "num",   kind |-> "int", declared |-> TRUE, mode |-> "enumarg",  deref |-> 0],
+  \* ATLAS built-ins on jets: getAttributeFloat("momf") -> float, getAttributeVectorFloat("momv") -> vector<double>
+  \* (the README's replacement for the templated getAttribute); rendered as such, never declared by metadata
+  [cls |-> "A", name |-> "momf", ret |-> "num",    kind |-> "float",  declared |-> FALSE, mode |-> "moment", deref |-> 0],
+  [cls |-> "A", name |-> "momv", ret |-> "vecnum", kind |-> "double", declared |-> FALSE, mode |-> "moment", deref |-> 0],
   \* R1 / R2: smart references to a T (one / two extra dereferences to reach its methods)
   [cls |-> "R1", name |-> "q",   ret |-> "num", kind |-> "int",    declared |-> TRUE, mode |-> "std", deref |-> 1],
   [cls |-> "R1", name |-> "pt",  ret |-> "num", kind |-> "double", declared |-> TRUE, mode |-> "std", deref |-> 1],
@@ -151,9 +158,12 @@ Backends == [
      none       only built-in collections
      fresh_Z    declares the new collection Z (python name VpZeds)
      replace_A  re-declares the built-in python name of A with another container type        *)
-DeclVariants == {"none", "fresh_Z", "replace_A"}
+\*   both_za / both_az   both declarations in one query, in either order (each call must be
+\*                       rewritten with ITS declaration, whichever came last)
+DeclVariants == {"none", "fresh_Z", "replace_A", "both_za", "both_az"}
+ReplacesA == {"replace_A", "both_za", "both_az"}
 CollTypeV(backend, v) == [c \in DOMAIN CollClass |->
-                            IF v = "replace_A" /\ c = "A" THEN Backends[backend].altA ELSE Backends[backend].colls[c].ctype]
+                            IF v \in ReplacesA /\ c = "A" THEN Backends[backend].altA ELSE Backends[backend].colls[c].ctype]
 LibOf(backend, c) == Backends[backend].colls[c].lib
 DeclaredKeys == {Methods[i].cls \o "." \o Methods[i].name : i \in {i \in DOMAIN Methods : Methods[i].declared}}
 SigForV(backend, v) == [collClass |-> CollClass, collType |-> CollTypeV(backend, v), decls |-> Decls, declared |-> DeclaredKeys]
@@ -179,7 +189,7 @@ DotNs(b) == CASE b = "atlas" -> "xAOD.Jet" [] b = "cms_aod" -> "reco.Muon" [] b 
 EnumMd(b) == [metadata_type |-> "define_enum", namespace |-> DotNs(b), name |-> "Color", values |-> EnumValues]
 
 \* base declarations (attached to every query) / the C10 signature space (attached to C10 cases only)
-IsBase(m) == m.mode = "std" /\ m.cls \notin {"R1", "R2"}
+IsBase(m) == m.mode = "std" /\ m.cls \notin {"R1", "R2"} /\ m.kind \notin {"R1", "R2"}
 DeclaredBase == SelectSeq(Declared, IsBase)
 DeclaredC10 == SelectSeq(Declared, LAMBDA m : ~IsBase(m))
 MdOf(ms, b) == [i \in 1..Len(ms) |->
